@@ -15,7 +15,7 @@ import (
 // StrMembers: members of each string class (used for values and keys).
 var StrMembers = map[string][]string{
 	"empty":     {""},
-	"ascii":     {"a", "hello", "A z", "0", "true", "null", "[1]", "{\"", "x,y", "a:b"},
+	"ascii":     {"a", "hello", "A z", "0", "true", "null", "[1]", "{\"", "x,y", "a:b", "100%", "a%%b", "%s%d"},
 	"quote":     {"\"", "a\"b", "\"\"", "say \"hi\""},
 	"backslash": {"\\", "a\\b", "C:\\data\\", "\\\\", "x\\", "\\n", "\\u0041"},
 	"slash":     {"/", "a/b", "\\/", "C:\\/temp", "</script>"},
@@ -30,7 +30,7 @@ var StrMembers = map[string][]string{
 	"astral":    {"😀", "𝄞", "a😀b", "𐍈"},
 	"astralnp":  {"\U000e0001", "\U000f0000", "\U0010ffff", "\U0003fffe", "\U000e0001\U000e0002"},
 	"sigils":    {".", "#", ".a#1", "a.b", "#0"},
-	"brackets":  {"]", "}", "see [1] and [2]", "{\"ids\":[1,2]}", "],[", "\\\"]"},
+	"brackets":  {"]", "}", "see [1] and [2]", "{\"ids\":[1,2]}", "],[", "\\\"]", "™]x", "a•}", "Ģ]", "Ŝ\"]"},
 	"long":      {strings.Repeat("ab", 300), strings.Repeat("é", 129)},
 }
 
@@ -236,10 +236,10 @@ func NumberRule(lit string) (Num, error) {
 }
 
 // WsText: whitespace kinds.
-var WsText = map[string]string{"SP": " ", "NL": "\n", "TAB": "\t", "CR": "\r", "CRLF": "\r\n", "MIX": " \n\t ", "SP3": "   "}
+var WsText = map[string]string{"SP": " ", "NL": "\n", "TAB": "\t", "CR": "\r", "CRLF": "\r\n", "MIX": " \n\t ", "SP3": "   ", "LS": "\u2028", "PS": "\u2029", "NBSP": "\u00a0"}
 
 // PreText: tokens before the root bracket.
-var PreText = map[string]string{"txt": "data=", "NL": "\n", "SP": " ", "cmt": "// generated\n", "bom": "\ufeff"}
+var PreText = map[string]string{"txt": "data=", "NL": "\n", "SP": " ", "bom": "\ufeff", "LS": "\u2028"}
 
 // ValidUTF8 reports whether all members are valid UTF-8 (self-check of the tables).
 func init() {
